@@ -69,6 +69,16 @@ fn hash_str(s: &str) -> u64 {
     h
 }
 
+/// The operation kind: first two words, or one for operations without a sub-kind.
+pub fn op_kind(op: &str) -> String {
+    let mut it = op.split(' ');
+    let a = it.next().unwrap_or("");
+    match a {
+        "comp" | "parse" | "name" | "rearr" | "sa" => a.to_string(),
+        _ => format!("{} {}", a, it.next().unwrap_or("")),
+    }
+}
+
 pub fn floats_close(a: f64, b: f64) -> bool {
     if a.is_nan() || b.is_nan() {
         return a.is_nan() && b.is_nan();
@@ -120,7 +130,7 @@ impl Session {
     /// Count an evaluated case (for oracle-only runs); `nontrivial` by the property's rule.
     pub fn count_case(&mut self, key: &str, nontrivial: bool) {
         self.evaluations += 1;
-        if self.track_distinct {
+        if self.track_distinct && !key.is_empty() {
             if self.distinct.insert(hash_str(key)) && nontrivial {
                 self.nontrivial_distinct += 1;
             }
@@ -133,7 +143,7 @@ impl Session {
     pub fn op(&mut self, op: String, expect: Vec<Field>, nontrivial: bool) {
         self.evaluations += 1;
         self.model_ops += 1;
-        let kind: String = op.split(' ').take(2).collect::<Vec<_>>().join(" ");
+        let kind = op_kind(&op);
         self.tag(&format!("op:{}", kind));
         if self.track_distinct {
             if self.distinct.insert(hash_str(&op)) && nontrivial {
@@ -231,13 +241,17 @@ impl Session {
                 continue;
             }
             if let Some(tag) = t.strip_prefix('#') {
-                let kind: String = p.op.split(' ').take(2).collect::<Vec<_>>().join(" ");
+                let kind = op_kind(&p.op);
                 self.tag(&format!("branch:{}:{}", kind, tag));
                 continue;
             }
             toks.push(t);
         }
         let mut bad: Option<usize> = None;
+        if line.contains("#!exempt") {
+            self.tag("exempt");
+            return;
+        }
         if toks.len() != p.expect.len() {
             bad = Some(usize::MAX);
         } else {
@@ -249,6 +263,36 @@ impl Session {
                             break;
                         }
                     }
+                    Field::FA(v, tol) => match wire::parse_f(t) {
+                        None => {
+                            bad = Some(k);
+                            break;
+                        }
+                        Some(m) => {
+                            self.float_fields += 1;
+                            let okv = if v.is_nan() || m.is_nan() { v.is_nan() && m.is_nan() } else { (m - *v).abs() <= *tol || m == *v };
+                            if !okv {
+                                let (op, tolv, vv) = (p.op.clone(), *tol, *v);
+                                self.fail("agrees-with-reference", "reference-evaluation", op, format!("implementation {:?}, reference {:?}, tolerance {:?}", vv, m, tolv));
+                            }
+                        }
+                    },
+                    Field::B1(b) => match t.parse::<i64>() {
+                        Err(_) => {
+                            bad = Some(k);
+                            break;
+                        }
+                        Ok(m) => {
+                            if (m - *b as i64).abs() > 1 {
+                                let (op, bv) = (p.op.clone(), *b);
+                                self.fail("within-one-8bit-step", "reference-evaluation", op, format!("implementation channel {}, reference {}", bv, m));
+                            }
+                            if m != *b as i64 {
+                                bad = Some(k);
+                                break;
+                            }
+                        }
+                    },
                     Field::F(v) => match wire::parse_f(t) {
                         None => {
                             bad = Some(k);
